@@ -1,13 +1,13 @@
 (* C13 -- transactions, full statement: the block may contain every operation of the state machine (union, copy, substructure,
-   setters, the patch step, renumbering ...) except a nested enter / exit of the same molecule (refuted: transaction_nested_refuted)
-   and swap (which is not an operation of the library but the harness' choice of the molecule it drives). *)
+   setters, the patch step, renumbering, a nested enter - which is rejected with RuntimeError and changes nothing) except the exit
+   itself and swap (which is not an operation of the library but the harness' choice of the molecule it drives). *)
 From Coq Require Import ZArith List Bool Lia.
 From Model Require Import PyBase Cache.
 From Proofs Require Import CacheProofs CacheWf CacheCopy CacheCoh CacheWorld CacheUnion CacheTheorems CacheExamples.
 Import ListNotations.
 Open Scope Z_scope.
 
-Definition block_op (p : op) : bool := match p with OEnter | OExitOk | OExitExn | OSwap => false | _ => true end.
+Definition block_op (p : op) : bool := match p with OExitOk | OExitExn | OSwap => false | _ => true end.
 Fixpoint block_ops (ops : list op) : bool := match ops with [] => true | p :: t => block_op p && block_ops t end.
 
 Lemma union_frame rmp cp s : W s ->
@@ -37,13 +37,17 @@ Proof.
   - unfold lift, flush, ok. cbn [fst s_heap s_cur s_others]. split; [exact X1|]. split; [reflexivity|]. exists []. reflexivity.
 Qed.
 
-Lemma block_step s p : W s -> op_ok s p -> block_op p = true ->
+Theorem enter_nested_rejected s : o_backup (s_cur s) <> None -> step s OEnter = (s, Some OtherError).
+Proof. intros B. cbn [step]. unfold lift, enter. destruct (o_backup (s_cur s)); [destruct s; reflexivity | contradiction]. Qed.
+
+Lemma block_step s p : W s -> op_ok s p -> block_op p = true -> o_backup (s_cur s) <> None ->
   hframe s (fst (step s p)) /\ o_backup (s_cur (fst (step s p))) = o_backup (s_cur s) /\
   exists pre, s_others (fst (step s p)) = pre ++ s_others s.
 Proof.
-  intros Ws Ok Bp. destruct (body_op p) eqn:Eb; [now apply body_step|].
-  destruct p; cbn [body_op block_op] in *; try discriminate. cbn [step].
-  destruct (union_frame rmp cp s Ws) as [[L E] [B P]]. split; [|split; assumption]. split; [exact L|]. intros r Hr _. now apply E.
+  intros Ws Ok Bp Bk. destruct (body_op p) eqn:Eb; [now apply body_step|].
+  destruct p; cbn [body_op block_op] in *; try discriminate.
+  - cbn [step]. destruct (union_frame rmp cp s Ws) as [[L E] [B P]]. split; [|split; assumption]. split; [exact L|]. intros r Hr _. now apply E.
+  - rewrite (enter_nested_rejected s Bk). cbn [fst]. split; [split; [lia | auto]|]. split; [reflexivity|]. exists []. reflexivity.
 Qed.
 
 Lemma block_run : forall ops s b, W s -> ops_ok s ops -> block_ops ops = true -> o_backup (s_cur s) = Some b ->
@@ -51,7 +55,7 @@ Lemma block_run : forall ops s b, W s -> ops_ok s ops -> block_ops ops = true ->
 Proof.
   unfold run. induction ops as [|p t IH]; intros s b Ws Ok Bo Eb; [split; [exact Eb | reflexivity]|].
   cbn [fold_left]. cbn [block_ops] in Bo. apply andb_true_iff in Bo. destruct Bo as [B1 B2]. destruct Ok as [O1 O2].
-  destruct (block_step s p Ws O1 B1) as [[L Un] [Ebk _]].
+  destruct (block_step s p Ws O1 B1) as [[L Un] [Ebk _]]; [congruence|].
   destruct (IH (fst (step s p)) b (step_W s p Ws O1) O2 B2) as [A1 A2]; [congruence|]. split; [exact A1|]. rewrite A2.
   apply view_of_ext. intros r Hr. destruct Ws as [F P]. rewrite Forall_forall in F.
   assert (In (bk_mobj b) (units s)) as Hu by (apply (backup_units s (s_cur s)); [now left | exact Eb]).
@@ -88,28 +92,14 @@ Qed.
 
 (* a block with an in-place union, a copy, a substructure, a renumbering, a setter: all allowed *)
 Definition txn_body_full : list op :=
-  [OCopy; OUnion true true; OUnion true false; OAddBond 3 4 1; OSub [1; 2]; OSetCharge 5 1; ORemap [(1, 11)]; ODelAtom 6].
+  [OCopy; OUnion true true; OUnion true false; OAddBond 3 4 1; OSub [1; 2]; OSetCharge 5 1; ORemap [(1, 11)]; OEnter; ODelAtom 6].
 Theorem transaction_full_example :
   let s := run build_cco empty_state in
   W s /\ snd (step s OEnter) = None /\ ops_ok (fst (step s OEnter)) txn_body_full /\ block_ops txn_body_full = true /\
-  trace txn_body_full (fst (step s OEnter)) = repeat None 8 /\
+  trace txn_body_full (fst (step s OEnter)) = repeat None 7 ++ [Some OtherError; None] /\
   keys (o_atoms (s_cur (run txn_body_full (fst (step s OEnter))))) = [11; 2; 3; 4; 5; 7; 8; 9].
 Proof.
   cbv zeta. split; [apply run_W; [apply W_empty | vm_compute; tauto]|]. split; [vm_compute; reflexivity|].
   split; [vm_compute; repeat split; discriminate|]. split; [reflexivity|]. split; vm_compute; reflexivity.
 Qed.
 
-(* nested blocks of one molecule are NOT atomic in the current code: the inner enter overwrites the backup, the inner exit
-   drops it; the outer block that raises is not rolled back and __exit__ itself raises AttributeError *)
-Theorem transaction_nested_refuted :
-  let s := run build_cco empty_state in
-  let ops := [OEnter; OAddAtom nitrogen None; OExitOk] in           (* the inner block, committed *)
-  W s /\ snd (step s OEnter) = None /\ ops_ok (fst (step s OEnter)) ops /\
-  trace ops (fst (step s OEnter)) = [None; None; None] /\
-  snd (step (run ops (fst (step s OEnter))) OExitExn) = Some AttributeError /\
-  keys (o_atoms (s_cur (fst (step (run ops (fst (step s OEnter))) OExitExn)))) = [1; 2; 3; 4] /\      (* N is still there *)
-  keys (o_atoms (s_cur s)) = [1; 2; 3].
-Proof.
-  cbv zeta. split; [apply run_W; [apply W_empty | vm_compute; tauto]|]. split; [vm_compute; reflexivity|].
-  split; [vm_compute; tauto|]. repeat split; vm_compute; reflexivity.
-Qed.
